@@ -870,7 +870,17 @@ get_comment_before(int line, CPPFile file) {
     CPPCommentBlock *comment = (*ci);
     if (comment->_file == file) {
       wrong_file_count = 0;
-      if (comment->_last_line == line || comment->_last_line == line - 1) {
+      if (comment->_last_line == line) {
+        // The declaration starts on the line the comment ends on.
+        comment->_claimed_line = line;
+        return comment;
+      }
+      if (comment->_last_line == line - 1) {
+        if (comment->_claimed_line == comment->_last_line) {
+          // This comment was already followed by a declaration on its own
+          // line; it does not document the one on the next line as well.
+          return nullptr;
+        }
         return comment;
       }
 
@@ -903,6 +913,10 @@ get_comment_on(int line, CPPFile file) {
     CPPCommentBlock *comment = (*ci);
     if (comment->_file == file) {
       if (comment->_line_number == line) {
+        if (comment->_last_line == line) {
+          // It shares the line with the declaration that asks for it.
+          comment->_claimed_line = line;
+        }
         return comment;
       } else if (comment->_line_number < line) {
         return nullptr;
